@@ -102,6 +102,11 @@ CLAIMS = {
             'Each source (tzdata 2025b, the recorded lines; thorough: a generated source) x scope is compiled 3-4 times with equal and different hash seeds: every generated file must be byte-identical modulo the order of reasons inside a comment. TLC checks, on contents extracted by importing / parsing the generated files: imported Python tables = in-memory tables per zone and policy, zones.txt = emitted set, every count stated in a header = number of entries, basic subset of extended. Zones emitted in both scopes must have identical ZoneSpecifier traces (truncation-noted excepted). tools/zonedbpy is imported, every zone swept over 2000..2049 and judged by TLC/zic against its own recorded lines.',
             'Byte identity is a plain file comparison (see DESIGN section 8).',
             '§4.10, §6-C20'),
+    'C19': ('model_checking',
+            'TLA+ model of the sampling/bisection algorithm over arbitrary step functions (Sampler.tla) checked by TLC; every enumerated case replayed through the real generator classes with a fake tzinfo; real zones audited by TLC (Sampler_Data.tla) against the library\'s exhibited changes; rendered C++ tables compiled and read back',
+            'TLC enumerates every step function with <= 2 changes (values differing in UTC offset and/or DST offset) on a window of three sampling intervals plus remainder, for several interval/phase configurations: recorded pairs are always real changes at adjacent ticks, EveryChangeBracketed holds under EnvOK (at most one change per examined interval) and is refuted in general. Every enumerated case (16k quick) is replayed through the real TestDataGenerator of compare_pytz and compare_dateutil with a fake tzinfo: recorded transitions, items, tags and item fields must equal the model\'s. For every zone of the installed pytz (all_timezones) and the dateutil zone list, several year ranges and sampling intervals: each change the library exhibits (its own transition table, filtered through the public API at t-1/t) must be bracketed by items at adjacent minutes (judged by TLC), monthly and year-end samples must be present, every item must equal what the library reports at its epoch; the items of five zones are rendered by ArduinoValidationGenerator, compiled and read back.',
+            'Installed pytz 2026.3 / dateutil 2.9; the replay starts the generator\'s scan late in the year through a harness-side stand-in for `datetime` in the generator module (a sample of cases runs the whole year and must agree). validator/zstdgenerator.py is not covered.',
+            '§4.10, §6-C19'),
 }
 
 PLANNED = {
